@@ -13,6 +13,7 @@ fn registry() -> Vec<PartDesc> {
     v.push(desc::<props::c02::C02>("exploration"));
     v.push(desc::<props::c03::C03>("exploration"));
     v.push(desc::<props::c04::C04>("fault_enumeration"));
+    v.push(desc::<props::c05::C05>("exploration"));
     v.push(desc::<props::c06::C06>("exploration"));
     v.push(desc::<props::c09::C09>("exploration"));
     v.push(desc::<props::c12::C12>("exploration"));
